@@ -236,11 +236,11 @@ func c02Truncate(r *Run, mt *ssa.Function) {
 
 	// classify each return
 	nNil, nErr, nTrunc, nTread := 0, 0, 0, 0
-	for _, ret := range returnsOf(mt) {
+	for _, ret := range returnSites(mt) {
 		if len(ret.Results) != 1 {
 			continue
 		}
-		conds := condsAtInstr(ret)
+		conds := ret.Conds()
 		inTread := false
 		for _, c := range conds {
 			if e, ok := normCond(c).V.(*ssa.Extract); ok && c.Truth && e.Index == 1 {
@@ -249,7 +249,7 @@ func c02Truncate(r *Run, mt *ssa.Function) {
 				}
 			}
 		}
-		facts := fa.FactsAt(ret)
+		facts := fa.FactsAtSite(ret)
 		res := ret.Results[0]
 		key := fmt.Sprintf("maybeTruncate return#%d", nNil+nErr+nTread)
 		if inTread {
@@ -339,10 +339,10 @@ func storesToField(fn *ssa.Function, base ssa.Value, field string) []*ssa.Store 
 	return out
 }
 
-func c02TwriteTruncation(fa *FA, mt *ssa.Function, ret *ssa.Return, fcallParam ssa.Value, sizeMinusMsize func(*Lin) bool, facts []Fact) (bool, string) {
+func c02TwriteTruncation(fa *FA, mt *ssa.Function, ret retSite, fcallParam ssa.Value, sizeMinusMsize func(*Lin) bool, facts []Fact) (bool, string) {
 	// a store fcall.Message = <MessageTwrite with Data re-sliced> dominating the return
 	for _, st := range storesToField(mt, fcallParam, "Message") {
-		if !instrDominates(st, ret) {
+		if !ret.DominatedBy(st) {
 			continue
 		}
 		s := fa.Sym(st.Val)
@@ -485,9 +485,9 @@ func c02TreadFit(r *Run, fa *FA, mt *ssa.Function, fcallParam ssa.Value) {
 		return fa.linSym(fa.fieldOf(s, "Count", nil), 0)
 	}
 	nRet := 0
-	for _, ret := range returnsOf(mt) {
+	for _, ret := range returnSites(mt) {
 		inClause := false
-		for _, cd := range condsAtInstr(ret) {
+		for _, cd := range ret.Conds() {
 			if nc := normCond(cd); nc.V == okv && nc.Truth {
 				inClause = true
 			}
@@ -501,7 +501,7 @@ func c02TreadFit(r *Run, fa *FA, mt *ssa.Function, fcallParam ssa.Value) {
 		if msgAlloc != nil {
 			var msgStore *ssa.Store
 			for _, st := range storesToField(mt, fcallParam, "Message") {
-				if instrDominates(st, ret) {
+				if ret.DominatedBy(st) {
 					msgStore = st
 				}
 			}
@@ -521,7 +521,7 @@ func c02TreadFit(r *Run, fa *FA, mt *ssa.Function, fcallParam ssa.Value) {
 		if outVal != nil {
 			vals = append(vals, outVal)
 		}
-		ok, why, nCases := fa.EntailsWrapAware(ret, vals,
+		ok, why, nCases := fa.EntailsWrapAware(ret.Conds(), vals,
 			func(ev func(ssa.Value) *Lin) []Fact {
 				R, M := ev(rcall), ev(msizeLoad)
 				return []Fact{
